@@ -28,6 +28,9 @@ def _contract(c):
         lambda: as_dense(u([1 << 40, 0]), np.array([1, 2], dtype=np.float32), n),
         lambda: SearchArray.index([" ".join(f"t{i}" for i in range(64 + n)), "x"]).termfreqs([f"t{i}" for i in range(64 + n)], slop=1),
         lambda: span_search(u(list(range(n))), u([0]), {}, 1, 0xFFFFFFF000000000, 0xFFFFFFFFFFFC0000, 28, 18),
+        # cumulative lengths that decrease / do not start at 0 / overshoot the encoded words
+        lambda: span_search(u(list(range(n + 4))), u([0, 100, n + 4]), {}, 1, 0xFFFFFFF000000000, 0xFFFFFFFFFFFC0000, 28, 18),
+        lambda: span_search(u(list(range(n + 4))), u([2, 3, n + 9]), {}, 1, 0xFFFFFFF000000000, 0xFFFFFFFFFFFC0000, 28, 18),
         lambda: intersect(np.arange(2 * n + 2, 0, -1, dtype=np.uint64)[::-1], np.arange(1, n + 2, dtype=np.uint64)),
         lambda: adjacent(np.arange(2 * n + 2, 0, -1, dtype=np.uint64)[::-1], np.arange(2, n + 3, dtype=np.uint64)),
         lambda: intersect_with_adjacents(np.zeros(n + 1, [("a", "<u8"), ("b", "<u4")])["a"], np.arange(n + 1, dtype=np.uint64)),
@@ -36,7 +39,7 @@ def _contract(c):
     for f in calls:
         try:
             f()
-        except (ValueError, IndexError, OverflowError, TypeError):
+        except (ValueError, IndexError, OverflowError, TypeError, KeyError):
             pass
     return 0
 
